@@ -261,6 +261,11 @@ def run(shard, rec, tier, seed):
                 check_swap(mon, rec, x, m)
             rec.case(("swap-huge", m.bit_length(), m % 1000003), n=7)
             rec.count("huge-multiples")
+        # multiple 0 is the identity on everything - also on runs of the bytes that 255 (or any other stand-in) divides
+        for x in (b"\x07\x00\xff\x09", b"\x00\xff", b"\xff\x00\x00\xff\x01", bytes(range(256)), bytes([0, 255] * 9 + [3]), bytes([0, 128, 0, 64, 255, 0])):
+            check_swap(mon, rec, x, 0)
+            rec.count("multiple-zero-on-runs-of-0-and-255")
+        rec.case(("swap-zero-runs",), n=6)
         rec.seen("swap_runs", "run lengths 0..70, 127..129, 255..257, 1023..1025, 4096, 65536, 65537")
     elif kind == "swap_patterns":
         mults = list(range(0, 13)) + [255, 256, 1000]
